@@ -164,6 +164,7 @@ type c18World struct {
 	subs    map[string]*c18Sub // key "sub/resource", open subscriptions only
 	retired []*c18Handler      // handlers that were removed (or whose subscription closed)
 	probeN  int
+	wedged  bool
 }
 
 func newC18World() (*c18World, error) {
@@ -296,7 +297,39 @@ func (w *c18World) anySub(res string) *c18Sub {
 	return w.subs[keys[0]]
 }
 
+// guarded runs one informer API call under a watchdog: none of them may block for long.
+func (w *c18World) guarded(what string, f func()) error {
+	done := make(chan struct{})
+	go func() {
+		defer close(done)
+		f()
+	}()
+	select {
+	case <-done:
+		return nil
+	case <-time.After(10 * time.Second):
+		w.wedged = true
+		return vs.Violf("C18/deadlock", "%s did not return within 10 s", what)
+	}
+}
+
 func (w *c18World) teardown() {
+	if w.wedged {
+		return // a call is stuck inside the informer package; tearing down would block as well
+	}
+	done := make(chan struct{})
+	go func() {
+		defer close(done)
+		w.teardownNow()
+	}()
+	select {
+	case <-done:
+	case <-time.After(10 * time.Second):
+		w.wedged = true
+	}
+}
+
+func (w *c18World) teardownNow() {
 	for k, s := range w.subs {
 		s.ri.Informer().RemoveEventHandlers()
 		s.ri.Close()
@@ -390,12 +423,16 @@ func propC18(c *vs.Case, nSubs, nRes, length int) error {
 						for _, it := range sub.ri.Informer().GetIndexer().List() {
 							names = append(names, it.(*unstructured.Unstructured).GetName())
 						}
-						if fast {
-							// slow enough that its own resync is usually in progress
-							h.delay = 3 * time.Millisecond
-							sub.ri.Informer().AddEventHandlerWithResyncPeriod(h, 15*time.Millisecond)
-						} else {
-							sub.ri.Informer().AddEventHandler(h)
+						if err := w.guarded("AddEventHandler on "+key, func() {
+							if fast {
+								// slow enough that its own resync is usually in progress
+								h.delay = 3 * time.Millisecond
+								sub.ri.Informer().AddEventHandlerWithResyncPeriod(h, 15*time.Millisecond)
+							} else {
+								sub.ri.Informer().AddEventHandler(h)
+							}
+						}); err != nil {
+							return err
 						}
 						sub.handlers = append(sub.handlers, h)
 						for _, nme := range names {
@@ -435,6 +472,7 @@ func propC18(c *vs.Case, nSubs, nRes, length int) error {
 					select {
 					case <-done:
 					case <-time.After(10 * time.Second):
+						w.wedged = true
 						return vs.Violf("C18/deadlock", "AddEventHandler did not return within 10 s")
 					}
 					sub.handlers = append(sub.handlers, h.c18Handler)
@@ -448,7 +486,9 @@ func propC18(c *vs.Case, nSubs, nRes, length int) error {
 				}})
 				if len(sub.handlers) > 0 {
 					ops = append(ops, op{"remove-handlers " + key, func() error {
-						sub.ri.Informer().RemoveEventHandlers()
+						if err := w.guarded("RemoveEventHandlers() on "+key, func() { sub.ri.Informer().RemoveEventHandlers() }); err != nil {
+							return err
+						}
 						// once RemoveEventHandlers has returned, not a single further event may arrive -
 						// not even from the handler's own resync timer
 						before := make([]int, len(sub.handlers))
@@ -474,9 +514,13 @@ func propC18(c *vs.Case, nSubs, nRes, length int) error {
 				}
 				ops = append(ops, op{"close " + key, func() error {
 					// documented contract: remove your handlers, then close (what controllers do in Stop())
-					sub.ri.Informer().RemoveEventHandlers()
+					if err := w.guarded("RemoveEventHandlers()+Close() on "+key, func() {
+						sub.ri.Informer().RemoveEventHandlers()
+						sub.ri.Close()
+					}); err != nil {
+						return err
+					}
 					w.retired = append(w.retired, sub.handlers...)
-					sub.ri.Close()
 					delete(w.subs, key)
 					if w.openCount(res) == 0 {
 						closedToZero[res] = true
